@@ -291,8 +291,38 @@ def DataChunk(rng, inst):
     return c
 
 
+def RTCSctpTransport(rng, inst):
+    """send-side state as _send / _receive_sack_chunk leave it: a sent queue of DATA chunks, some of them abandoned"""
+    import collections
+    from aiortc.rtcsctptransport import RTCSctpTransport as T, DataChunk
+    t = T.__new__(T)
+    tsn = rng.choice([0, 5, (1 << 32) - 2, rng.randrange(1 << 32)])
+    t._last_sacked_tsn = (tsn - 1) % (1 << 32)
+    t._advanced_peer_ack_tsn = (tsn - 1) % (1 << 32)
+    t._forward_tsn_chunk = None
+    q = collections.deque()
+    n = rng.choice([0, 1, 2, 3, 4, 6])
+    n_ab = rng.randrange(n + 1)
+    seqs = {1: rng.choice([0, 65534, 65535]), 2: rng.choice([0, 7, 65535])}
+    for i in range(n):
+        c = DataChunk()
+        sid = rng.choice([1, 1, 2])
+        c.flags = rng.choice([3, 3, 7])
+        c.tsn = (tsn + i) % (1 << 32)
+        c.stream_id = sid
+        c.stream_seq = seqs[sid]
+        seqs[sid] = (seqs[sid] + 1) % 65536
+        c.protocol = 51
+        c.user_data = b"x"
+        c._abandoned = i < n_ab
+        c._acked = False
+        q.append(c)
+    t._sent_queue = q
+    return t
+
+
 def AnyRtcp(rng, inst):
     return _rtcp(rng, [0, 1, 2, 1234, (1 << 32) - 1])
 
 
-BUILDERS = {"RtpRouter": RtpRouter, "InboundStream": InboundStream, "RTCPeerConnection": RTCPeerConnection, "NackGenerator": NackGenerator, "JitterBuffer": JitterBuffer, "RtpPacket": RtpPacket}
+BUILDERS = {"RtpRouter": RtpRouter, "RTCSctpTransport": RTCSctpTransport, "InboundStream": InboundStream, "RTCPeerConnection": RTCPeerConnection, "NackGenerator": NackGenerator, "JitterBuffer": JitterBuffer, "RtpPacket": RtpPacket}
